@@ -22,6 +22,7 @@ import hashlib
 from ecdsa import ellipticcurve  # type: ignore
 from bitcoinutils.constants import SATOSHIS_PER_BITCOIN, LEAF_VERSION_TAPSCRIPT
 from bitcoinutils.schnorr import full_pubkey_gen, point_add, point_mul, G
+from bitcoinutils.bech32 import bech32_decode
 import struct
 
 
@@ -308,19 +309,9 @@ def is_address_bech32(address: str) -> bool:
     if not address:
         return False
 
-    CHARSET = "qpzry9x8gf2tvdw0s3jn54khce6mua7l"
-    # Check if the string has valid characters
-    for char in address:
-        if char.lower() not in CHARSET:
-            return False
-    try:
-        hrp, data = address.lower().split("1")
-    except ValueError:
-        return False
-    # Check if the human-readable part (hrp) and data part are of appropriate lengths
-    if len(hrp) < 1 or len(data) < 6:
-        return False
-    return True
+    # valid characters, single case, separator, lengths and bech32/bech32m checksum
+    hrp, _, _ = bech32_decode(address)
+    return hrp is not None
 
 
 def vi_to_int(byteint: bytes) -> Tuple[int, int]:
